@@ -11,7 +11,7 @@ from vlib.framework import BaseCheck, CaseResult
 
 IDLE, OPEN, BUSY, CLOSED = 1, 2, 3, 4
 SERIAL_SKELETONS = ['open', 'one', 'two', 'after-timeout', 'chunked', 'timeout-in-write', 'expired-on-arrival',
-                    'retry-from-handler', 'request-during-reconnect']
+                    'retry-from-handler', 'request-during-reconnect', 'second-life']
 MUX_SKELETONS = ['open', 'one', 'three', 'timed-out+one', 'queued', 'ping', 'silent-inflight', 'requests-while-opening',
                  'retry-from-handler', 'stalled-peer', 'pings-ignored-under-traffic']
 FAULTS = ['error', 'eof', 'refuse', 'silence']
@@ -44,7 +44,7 @@ PLAN = build_plan()
 class C08(BaseCheck):
   ID = 'C08'
   LEVEL = 'fault_enumeration'
-  RULE = ('enumerated space = {serial Thrift transport x skeletons open/one/two/after-timeout/chunked/timeout-in-write (deadline fires inside a blocked partial write)/expired-on-arrival (deadline already past when the request reaches the transport)/retry-from-handler (the error handler of a failed request hands a follow-up to the transport synchronously, below the timeout sink)/request-during-reconnect (a second request reaches the transport while it re-establishes its connection after a timeout, 0.2 s connect latency), '
+  RULE = ('enumerated space = {serial Thrift transport x skeletons open/one/two/after-timeout/chunked/timeout-in-write (deadline fires inside a blocked partial write)/expired-on-arrival (deadline already past when the request reaches the transport)/retry-from-handler (the error handler of a failed request hands a follow-up to the transport synchronously, below the timeout sink)/second-life (closed by its owner and opened again; faults then hit the second connection)/request-during-reconnect (a second request reaches the transport while it re-establishes its connection after a timeout, 0.2 s connect latency), '
           'ThriftMux transport x skeletons stalled-peer (the peer reads and answers nothing: one request blocked in its write, two queued, the ping behind them must still bring the transport down)/pings-ignored-under-traffic (one answered request per second, no ping answered any more)/open(incl. initial ping)/one/three concurrent/timed-out+one/'
           'queued(stalled writer)/ping/requests-while-opening/silent-inflight (peer goes silent with a request in flight and a timed-out one unacknowledged)} + {reply and close (FIN/RST) in one instant on request 0/1/2} x connection ordinal {0,1} x op {connect; send 0-3; recv 0-9} x fault '
           '{exception, EOF, refusal, silence}; quick and thorough both sweep it completely (thorough adds '
@@ -64,7 +64,7 @@ class C08(BaseCheck):
   REQUIRED_ANCHORS = ANCHORS
   REQUIRED_CLASSES = ('thrift', 'mux', 'fault:connect', 'fault:send', 'fault:recv', 'kind:error', 'kind:eof',
                       'kind:refuse', 'kind:silence', 'reconnect-fault', 'probe', 'ping-silence', 'reply-and-close-same-instant', 'timeout-in-write', 'silent-with-inflight', 'requests-while-opening',
-                      'expired-on-arrival', 'retry-from-handler', 'request-during-reconnect', 'stalled-peer', 'pings-ignored-under-traffic')
+                      'expired-on-arrival', 'retry-from-handler', 'request-during-reconnect', 'stalled-peer', 'pings-ignored-under-traffic', 'second-life')
   ASSUMPTIONS = ('a silence fault (peer stops answering without closing) legitimately leaves the transport '
                  'open; only the probe clause applies then',)
   QUICK_WALL = 180
@@ -195,7 +195,9 @@ class C08(BaseCheck):
                     'the transport reports state %s' % (fkind, op, ordinal, conn_ord, where,
                                                         {1: 'Idle', 2: 'Open', 3: 'Busy'}.get(st, st)),
                     dict(facts0, where=where), {'faults_fired': [(f[0][2], f[0][3], f[1]) for f in net.faults_fired]})
-      elif not faults:
+      elif not faults and not (sk == 'second-life' and op == 'connect' and conn_ord == 1):
+        # (a re-open that fails is reported to the owner through the result of its Open() call; the
+        # transport was closed before, so the fault signal has nothing new to say - not judged)
         out.violate('signal:not-raised', 'transport closed after a %s at %s op %d without raising its fault '
                     'signal' % (fkind, op, ordinal), facts0)
     checked = [False]
@@ -252,6 +254,25 @@ class C08(BaseCheck):
         env.advance(1.5)
       elif sk == 'chunked':
         request(act={'delay': 0.001, 'chunks': [(1, 0.001), (3, 0.001), (5, 0.002), (7, 0.0)]})
+        env.advance(1.5)
+      elif sk == 'second-life':
+        # the owner closes the transport and opens it again (Close() resets the open result): the
+        # second connection is subject to the same rules as the first
+        classes.add('second-life')
+        request()
+        env.advance(1.0)
+        transport.Close()
+        env.advance(0.1)
+        del faults[:]          # whatever the first life signalled was its owner's to handle
+        ar2_ = transport.Open()
+        g2_ = 0
+        while not ar2_.ready() and g2_ < 400:
+          env.advance(0.05)
+          g2_ += 1
+        if not ar2_.ready():
+          env.advance(130)
+        step(0.01, 'after the second open')
+        request()
         env.advance(1.5)
       elif sk == 'request-during-reconnect':
         # a request times out against a silent peer, the transport re-establishes its connection and
